@@ -98,6 +98,8 @@ class StmtMixin:
                 if isinstance(v, Exc):
                     yield s1, self.raise_out(v)
                     continue
+                if getattr(c, 'yield_type', None) is not None:
+                    v = self.coerce(v, c.yield_type)
                 for j, e in enumerate(c.yield_asserts):
                     from .execcall import clause
                     e2, props = clause(e)
